@@ -721,6 +721,7 @@ fn exec_inner(x: &mut AnyBv, y: &Y, op: &str, f: &str, a: &Args) -> Out {
 
 /// Execute one call on the live vector `x`.
 pub fn exec(x: &mut AnyBv, y: &Y, op: &str, f: &str, a: &Args) -> Out {
+    crate::progress::tick();
     take_stash();
     match catch_unwind(AssertUnwindSafe(|| exec_inner(x, y, op, f, a))) {
         Ok(o) => o,
